@@ -1,10 +1,219 @@
 /-
-  TwProofs.C18 — property theorems (see DESIGN.md, section 6).
+  TwProofs.C18 — templates are addressable by relative name; a bad file fails loading cleanly.
+
+  Model: `TwModel.Api` over an abstract file tree (`Fs`: cleaned relative paths ↦ file / directory
+  / unreadable link; the real tree is translated by the harness).  Theorems: what `NewTemplate`
+  registers (only files that end in the extension, under `nameFromPath`, layouts excluded), that
+  the first faulty file in name order makes the whole call fail with that file's error, that an
+  unknown name is "not found", that a file evaluates like its content, that loading has no
+  panic outcome.
 -/
 import TwModel
 import TwSpec
+import TwProofs.Lemmas.LoadWhole
+import TwProofs.Lemmas.LexNoPanic
 
 namespace Tw.C18
 open Tw
+
+/-! ### what is registered -/
+
+/-- the (name, path) pairs `NewTemplate` works through, in name order -/
+def candidates (w : World) (paths : List Bytes) : List (Bytes × Bytes) :=
+  sortByKey ((paths.filter fun p => hasSuffix p w.cfg.ext).foldl (fun (m : List (Bytes × Bytes)) p => mapSet m (nameFromPath w.cfg p) p) [])
+
+theorem foldl_mapSet_mem (c : Cfg) : ∀ (files : List Bytes) (acc : List (Bytes × Bytes)) (x : Bytes × Bytes),
+    x ∈ files.foldl (fun (m : List (Bytes × Bytes)) p => mapSet m (nameFromPath c p) p) acc →
+    x ∈ acc ∨ (x.2 ∈ files ∧ x.1 = nameFromPath c x.2)
+  | [], acc, x, h => Or.inl h
+  | p :: r, acc, x, h => by
+    simp only [List.foldl_cons] at h
+    rcases foldl_mapSet_mem c r _ x h with h | h
+    · rcases mapSet_mem _ _ _ _ h with h | h
+      · exact Or.inl h
+      · right; rw [h]; exact ⟨List.mem_cons_self, rfl⟩
+    · exact Or.inr ⟨List.mem_cons_of_mem _ h.1, h.2⟩
+
+/-- every candidate is a file found under the template directory whose name ends in the
+    extension, under the name `nameFromPath` gives it (path relative to the directory, extension
+    removed) — at any depth -/
+theorem candidates_are_template_files (w : World) (paths : List Bytes) (x : Bytes × Bytes) (h : x ∈ candidates w paths) :
+    x.2 ∈ paths ∧ hasSuffix x.2 w.cfg.ext = true ∧ x.1 = nameFromPath w.cfg x.2 := by
+  unfold candidates at h
+  have h' := (sortByKey_perm _).subset h
+  rcases foldl_mapSet_mem w.cfg _ [] x h' with h1 | h1
+  · cases h1
+  · have := List.mem_filter.mp h1.1
+    exact ⟨this.1, this.2, h1.2⟩
+
+/-- what `NewTemplate` returns, as a fold over the candidates -/
+theorem newTemplate_eq (w : World) (o : Option Opt) (paths : List Bytes)
+    (hw : (configure w o).fs.walk (configure w o).cfg.dir = some paths) :
+    (newTemplate w o).2 =
+      (candidates (configure w o) paths).foldlM (fun (acc : Template) (np : Bytes × Bytes) =>
+        match loadPage (configure w o).fs (configure w o).cfg np.2 with
+        | .error f => .error f
+        | .ok none => .ok acc
+        | .ok (some pg) => .ok (acc ++ [(np.1, pg)])) [] := by
+  unfold newTemplate
+  simp only [hw, candidates]
+  rfl
+
+/-- a missing template directory is an error -/
+theorem missing_directory_is_error (w : World) (o : Option Opt)
+    (hw : (configure w o).fs.walk (configure w o).cfg.dir = none) : (newTemplate w o).2 = .error (osFail 0 []) := by
+  unfold newTemplate
+  simp only [hw]
+
+/-- **every registered name is a template file's relative name** -/
+theorem registered_names (w : World) (o : Option Opt) (paths : List Bytes) (t : Template)
+    (hw : (configure w o).fs.walk (configure w o).cfg.dir = some paths) (h : (newTemplate w o).2 = .ok t) :
+    ∀ x ∈ t, ∃ p ∈ paths, hasSuffix p (configure w o).cfg.ext = true ∧ x.1 = nameFromPath (configure w o).cfg p ∧
+      loadPage (configure w o).fs (configure w o).cfg p = .ok (some x.2) := by
+  rw [newTemplate_eq w o paths hw] at h
+  refine foldlM_except_inv _ (fun (acc : Template) => ∀ x ∈ acc, ∃ p ∈ paths, hasSuffix p (configure w o).cfg.ext = true ∧
+      x.1 = nameFromPath (configure w o).cfg p ∧ loadPage (configure w o).fs (configure w o).cfg p = .ok (some x.2))
+    _ [] t ?_ (fun x hx => (by cases hx)) h
+  intro acc np acc' hnp hacc hf
+  split at hf
+  · cases hf
+  · cases hf; exact hacc
+  · rename_i pg hl
+    cases hf
+    intro x hx
+    rcases List.mem_append.mp hx with hx | hx
+    · exact hacc x hx
+    · rw [List.mem_singleton.mp hx]
+      obtain ⟨h1, h2, h3⟩ := candidates_are_template_files _ paths np hnp
+      exact ⟨np.2, h1, h2, h3, hl⟩
+
+/-! ### a faulty file fails the whole load, with that file's error -/
+
+theorem foldlM_first_error {α β ε : Type} (f : β → α → Except ε β) :
+    ∀ (pre : List α) (x : α) (post : List α) (b0 b1 : β) (e : ε),
+      pre.foldlM f b0 = .ok b1 → f b1 x = .error e → (pre ++ x :: post).foldlM f b0 = .error e
+  | [], x, post, b0, b1, e, h1, h2 => by
+    simp only [List.foldlM_nil, pure, Except.pure] at h1
+    cases h1
+    simp only [List.nil_append, List.foldlM_cons, bind, Except.bind, h2]
+  | a :: pre, x, post, b0, b1, e, h1, h2 => by
+    simp only [List.foldlM_cons, bind, Except.bind] at h1
+    cases hfa : f b0 a with
+    | error e' => rw [hfa] at h1; cases h1
+    | ok b' =>
+      rw [hfa] at h1
+      simp only [List.cons_append, List.foldlM_cons, bind, Except.bind, hfa]
+      exact foldlM_first_error f pre x post b' b1 e h1 h2
+
+/-- **a single faulty file** (a page that does not parse, a layout or component it needs that is
+    absent, unreadable or wrong): when the files before it in name order load, `NewTemplate`
+    returns no template and exactly the error of that file -/
+theorem faulty_file_fails_loading (w : World) (o : Option Opt) (paths : List Bytes)
+    (pre post : List (Bytes × Bytes)) (np : Bytes × Bytes) (acc : Template) (f : Fail)
+    (hw : (configure w o).fs.walk (configure w o).cfg.dir = some paths)
+    (hsplit : candidates (configure w o) paths = pre ++ np :: post)
+    (hpre : pre.foldlM (fun (acc : Template) (np : Bytes × Bytes) =>
+        match loadPage (configure w o).fs (configure w o).cfg np.2 with
+        | .error f => (Except.error f : Except Fail Template)
+        | .ok none => Except.ok acc
+        | .ok (some pg) => Except.ok (acc ++ [(np.1, pg)])) [] = Except.ok acc)
+    (hbad : loadPage (configure w o).fs (configure w o).cfg np.2 = .error f) :
+    (newTemplate w o).2 = .error f := by
+  rw [newTemplate_eq w o paths hw, hsplit]
+  exact foldlM_first_error _ pre np post [] acc f hpre (by simp only [hbad])
+
+/-- a page that does not parse is reported with its own path and the line of the error -/
+theorem syntax_error_names_the_file (fs : Fs) (c : Cfg) (p src : Bytes) (e : PErr)
+    (hr : readFile fs p = .ok src) (hp : parseSource src 0 = .err e) :
+    loadPage fs c p = .error (failOf e.code e.line e.args p) := by
+  unfold loadPage parseFile
+  rw [hr]
+  simp only [hp]
+  split <;> rfl
+
+/-- loading has no panic outcome: the lexer-panic result of a parse is unreachable -/
+theorem parse_never_lexer_panics (src : Bytes) (base : Nat) : parseSource src base ≠ .lexPanic := by
+  intro h
+  unfold parseSource at h
+  split at h
+  · cases h
+  · rename_i lr htok
+    split at h
+    · rename_i hp
+      rw [tokenize_no_panic src lr htok] at hp
+      cases hp
+    · unfold finishParse at h
+      cases hs : (parseProgramLoop (parseFuel lr.toks) [] (initParser lr.toks base)).1 with
+      | none =>
+        rw [hs] at h
+        simp only [] at h
+        split at h
+        · cases h
+        · split at h <;> cases h
+      | some ss =>
+        rw [hs] at h
+        cases hic : lr.insideCode with
+        | true =>
+          rw [hic] at h
+          simp only [if_true] at h
+          split at h
+          · cases h
+          · split at h <;> cases h
+        | false =>
+          rw [hic] at h
+          simp only [Bool.false_eq_true, if_false] at h
+          split at h
+          · cases h
+          · split at h <;> cases h
+
+/-! ### rendering by name and by path -/
+
+/-- an unknown name (also a layout's name: layouts are not registered) is "template not found",
+    with the path the name stands for -/
+theorem unknown_name_is_not_found (w : World) (t : Template) (name : Bytes) (data : List (Bytes × GoVal)) (env : Env)
+    (hd : envFromMap data = .ok env) (hn : mapGet t name = none) :
+    tplString w t name data = .fail (failOf "ErrTemplateNotFound" 0 [] (templatePath w.cfg name)) := by
+  unfold tplString envOrFail
+  simp only [hd, hn]
+
+/-- evaluating a file by path equals evaluating its content as a string -/
+theorem evaluateFile_is_evaluateString (w : World) (path src : Bytes) (data : List (Bytes × GoVal))
+    (hr : readFile w.fs path = .ok src) :
+    (evaluateFile w path data).2 = (evaluateString w src data).2 := by
+  unfold evaluateFile evaluateString
+  simp only [hr]
+
+/-- a file that cannot be read is an error that carries the path -/
+theorem evaluateFile_missing (w : World) (path : Bytes) (data : List (Bytes × GoVal)) (hr : readFile w.fs path = .notExist) :
+    (evaluateFile w path data).2 = .fail (osFail 0 path) := by
+  unfold evaluateFile
+  simp only [hr]
+
+/-! ### directory spellings -/
+
+/-- the configured directory is stored cleaned, without leading / trailing slashes -/
+theorem directory_is_normalised (w : World) (o : Opt) (h : o.dir.isEmpty = false) :
+    (configure w (some o)).cfg.dir = cleanPath (trimRightByte 47 (trimLeftByte 47 o.dir)) := by
+  unfold configure
+  simp only [h, Bool.false_eq_true, if_false]
+  split <;> split <;> rfl
+
+example : cleanPath (b "./a//b/../tpl/") = b "a/tpl" ∧ cleanPath (b "tpl/./x/..") = b "tpl" ∧ cleanPath (b "../t") = b "../t" := by
+  decide
+
+/-- nested files at any depth, a non-default directory spelling and extension, a layout that is
+    not registered, a file with another ending that is ignored -/
+def demoFs : Fs :=
+  [ (b "views", .dir), (b "views/a", .dir), (b "views/a/b", .dir),
+    (b "views/a/b/deep.html", .file (b "deep {{ 1 + 1 }}")), (b "views/top.html", .file (b "top")),
+    (b "views/skip.htm", .file (b "{{ ")), (b "views/lay.html", .file (b "<@reserve(\"x\")>")) ]
+
+example :
+    (match newTemplate { fs := demoFs } (some { dir := b "./views//", ext := b ".html" }) with
+      | (w, .ok t) =>
+        t.map (·.1) == [b "a/b/deep", b "top"] &&
+        (match tplString w t (b "a/b/deep") [] with | .ok out => out == b "deep 2" | _ => false) &&
+        (match tplString w t (b "lay") [] with | .fail f => f.msg == formatMsg "ErrTemplateNotFound" [] | _ => false)
+      | _ => false) = true := by decide +kernel
 
 end Tw.C18
